@@ -106,6 +106,18 @@ def push_sequences(world, e, limit=64):
                         break
                 return res
             return [[x]]
+        if x.op == "call" and world.callee_body(x) is None and x.args and isinstance(x.info, str):
+            nm = x.info.rsplit("::", 1)[-1]
+            if nm == "collect" and x.info.endswith("Iterator::collect"):
+                return go(x.args[0], depth + 1)
+            if nm == "chain" and len(x.args) == 2:
+                return [s0 + t0 for s0 in go(x.args[0], depth + 1) for t0 in go(x.args[1], depth + 1)][:limit]
+            if nm == "map" and len(x.args) == 2 and x.args[1].op == "closure":
+                from ..callgraph import literal_elems
+                lit = literal_elems(world, x.args[0])
+                if lit is not None:
+                    return [[world.apply_closure(x.args[1], [el]) for el in lit]]
+                return [[x]]
         if x.op == "call" and x.info == "vec!":
             arr = x.args[0]
             return [list(arr.args)] if arr.op == "array" else [[x]]
